@@ -221,4 +221,807 @@ theorem brLoop_sids (o : InOpts) (a : Nat) : ∀ (fuel : Nat) (st : BrState) (to
             · cases h
         · exact ih _ _ r (hpush _) h
 
+
+/-! ### fuel-free loop -/
+
+/-- the reader loop without fuel and without the discobracket post-pass -/
+def brRun (o : InOpts) : BrState → List (Str × LexClass) → Except Err (List (Nat × Tree))
+  | st, [] => if st.level != 0 then .error .valueError else .ok st.out.reverse
+  | st, tok :: rest =>
+    match brStep o st tok with
+    | .error e => .error e
+    | .ok (st', none) => brRun o st' rest
+    | .ok (st', some t) => brRun o { st' with out := (st.cnt, t) :: st'.out } rest
+
+theorem brLoop_eq_brRun (o : InOpts) (hd : o.disco = false) : ∀ (fuel : Nat) (st : BrState) (toks : List (Str × LexClass)),
+    toks.length < fuel → brLoop o fuel st toks = brRun o st toks := by
+  intro fuel
+  induction fuel with
+  | zero => intro st toks h; omega
+  | succ fuel ih =>
+    intro st toks h
+    cases toks with
+    | nil => simp [brLoop, brRun]
+    | cons tok rest =>
+      have hl : rest.length < fuel := by simp at h; omega
+      simp only [brLoop, brRun, hd]
+      cases hs : brStep o st tok with
+      | error e => rfl
+      | ok x =>
+        obtain ⟨st', r⟩ := x
+        cases r with
+        | none => exact ih _ _ hl
+        | some t => simp only [Bool.false_eq_true, if_false]; exact ih _ _ hl
+
+theorem brRun_nil_err (o : InOpts) (st : BrState) (h : st.level ≠ 0) : brRun o st [] = .error .valueError := by
+  simp [brRun, h]
+
+theorem brRun_err (o : InOpts) (st : BrState) (tok : Str × LexClass) (rest : List (Str × LexClass)) (e : Err)
+    (h : brStep o st tok = .error e) : brRun o st (tok :: rest) = .error e := by
+  simp [brRun, h]
+
+theorem brRun_none (o : InOpts) (st st' : BrState) (tok : Str × LexClass) (rest : List (Str × LexClass))
+    (h : brStep o st tok = .ok (st', none)) : brRun o st (tok :: rest) = brRun o st' rest := by
+  simp [brRun, h]
+
+theorem brRun_some (o : InOpts) (st st' : BrState) (t : Tree) (tok : Str × LexClass) (rest : List (Str × LexClass))
+    (h : brStep o st tok = .ok (st', some t)) :
+    brRun o st (tok :: rest) = brRun o { st' with out := (st.cnt, t) :: st'.out } rest := by
+  simp [brRun, h]
+
+/-! ### queue operations -/
+
+theorem updLast_snoc (q : List QNode) (x : QNode) (g : QNode → QNode) : updLast (q ++ [x]) g = q ++ [g x] := by
+  simp [updLast]
+
+theorem closeLast_snoc2 (q : List QNode) (p x : QNode) :
+    closeLast (q ++ [p] ++ [x]) = q ++ [{ p with kids := p.kids ++ [x.toTree] }] := by
+  simp [closeLast]
+
+/-! ### single steps -/
+section steps
+variable (o : InOpts) (st : BrState) (w : Str)
+
+theorem step_lrb_0 (h : st.state = 0) : brStep o st (w, .lrb) =
+    .ok ({ st with level := st.level + 1, queue := st.queue ++ [{}], state := 9 }, none) := by
+  simp [brStep, h]
+
+theorem step_lrb_235 (h : st.state = 2 ∨ st.state = 3 ∨ st.state = 5) : brStep o st (w, .lrb) =
+    .ok ({ st with level := st.level + 1, queue := st.queue ++ [{}], state := 1 }, none) := by
+  rcases h with h | h | h <;> simp [brStep, h]
+
+theorem step_lrb_9 (h : st.state = 9) : brStep o st (w, .lrb) =
+    brStep o { st with state := 2, queue := updLast st.queue (fun q => { q with f := { q.f with label := DEFAULT_ROOT } }) } (w, .lrb) := by
+  simp [brStep, h]
+
+theorem step_lrb_14 (h : st.state = 1 ∨ st.state = 4) : brStep o st (w, .lrb) = .error .valueError := by
+  rcases h with h | h <;> simp [brStep, h]
+
+theorem step_rrb_0 (h : st.state = 0) : brStep o st (w, .rrb) = .ok (st, none) := by
+  simp [brStep, h]
+
+theorem step_rrb_139 (h : st.state = 1 ∨ st.state = 3 ∨ st.state = 9) : brStep o st (w, .rrb) = .error .valueError := by
+  rcases h with h | h | h <;> simp [brStep, h]
+
+theorem step_rrb_2_noEmpty (h : st.state = 2) (he : o.emptyPos = false) : brStep o st (w, .rrb) = .error .valueError := by
+  simp [brStep, h, he]
+
+theorem step_rrb_2_empty (h : st.state = 2) (he : o.emptyPos = true) : brStep o st (w, .rrb) =
+    brStep o { st with state := 4, termCnt := st.termCnt + 1, queue := updLast st.queue (fun q => { q with f := { q.f with word := some q.f.label, label := DEFAULT_LABEL, edge := some DEFAULT_EDGE, morph := some DEFAULT_MORPH }, num := some st.termCnt }) } (w, .rrb) := by
+  simp [brStep, h, he]
+
+theorem step_rrb_close (h : st.state = 4 ∨ st.state = 5) (q : List QNode) (p x : QNode) (L : Nat)
+    (hq : st.queue = q ++ [p] ++ [x]) (hl : st.level = L + 2) : brStep o st (w, .rrb) =
+    .ok ({ st with state := 5, level := L + 1, queue := q ++ [{ p with kids := p.kids ++ [x.toTree] }] }, none) := by
+  have := closeLast_snoc2 q p x
+  rcases h with h | h <;> simp [brStep, h, hq, hl] <;> simpa using this
+
+theorem step_rrb_yield (h : st.state = 4 ∨ st.state = 5) (x : QNode)
+    (hq : st.queue = [x]) (hl : st.level = 1) (hr : o.replaceParens = false) : brStep o st (w, .rrb) =
+    .ok ({ st with state := 0, level := 0, queue := [], termCnt := 1, cnt := st.cnt + 1 }, some x.toTree) := by
+  rcases h with h | h <;> simp [brStep, h, hq, hl, hr]
+
+theorem step_ws_2 (h : st.state = 2) : brStep o st (w, .ws) = .ok ({ st with state := 3 }, none) := by
+  simp [brStep, h]
+
+theorem step_ws_other (h : st.state ≠ 2) : brStep o st (w, .ws) = .ok (st, none) := by
+  simp [brStep, h]
+
+theorem step_token_0 (h : st.state = 0) : brStep o st (w, .token) = .ok (st, none) := by
+  simp [brStep, h]
+
+theorem step_token_19 (h : st.state = 1 ∨ st.state = 9) (hg : o.gfSplit = false) : brStep o st (w, .token) =
+    .ok ({ st with queue := updLast st.queue (fun q => { q with f := { q.f with label := w, edge := some DEFAULT_EDGE, morph := some DEFAULT_MORPH } }), state := 2 }, none) := by
+  rcases h with h | h <;> simp [brStep, h, hg]
+
+theorem step_token_3 (h : st.state = 3) : brStep o st (w, .token) =
+    .ok ({ st with queue := updLast st.queue (fun q => { q with f := { q.f with word := some w }, num := some st.termCnt }), termCnt := st.termCnt + 1, state := 4 }, none) := by
+  simp [brStep, h]
+
+theorem step_token_245 (h : st.state = 2 ∨ st.state = 4 ∨ st.state = 5) : brStep o st (w, .token) = .error .valueError := by
+  rcases h with h | h | h <;> simp [brStep, h]
+
+end steps
+
+
+/-! ### the lexer as a maximal-munch tokenizer -/
+
+theorem drop_takeWhile_length {α} (p : α → Bool) (l : List α) : l.drop (l.takeWhile p).length = l.dropWhile p := by
+  induction l with
+  | nil => rfl
+  | cons a l ih => by_cases h : p a <;> simp [List.takeWhile, List.dropWhile, h, ih]
+
+theorem dropWhile_head_false {α} (p : α → Bool) (l : List α) (c : α) (r : List α) (h : l.dropWhile p = c :: r) : p c = false := by
+  induction l with
+  | nil => simp at h
+  | cons a l ih =>
+    by_cases ha : p a
+    · simp [List.dropWhile, ha] at h; exact ih h
+    · simp [List.dropWhile, ha] at h; rw [← h.1]; simpa using ha
+
+theorem dropWhile_length_le {α} (p : α → Bool) (l : List α) : (l.dropWhile p).length ≤ l.length := by
+  induction l with
+  | nil => simp
+  | cons a l ih => by_cases ha : p a <;> simp [List.dropWhile, ha] ; omega
+
+theorem lex_lrb (cs : Str) : bracketLex ('(' :: cs) = (['('], .lrb) :: bracketLex cs := by
+  simp [bracketLex, lexAux_lrb]
+
+theorem lex_rrb (cs : Str) : bracketLex (')' :: cs) = ([')'], .rrb) :: bracketLex cs := by
+  simp [bracketLex, lexAux_rrb]
+
+theorem lex_nil : bracketLex [] = [] := rfl
+
+/-- a run of token characters already buffered (`acc` non-empty) -/
+theorem lexAux_tokrun (s : Str) : ∀ (acc : Str), acc ≠ [] →
+    (s.dropWhile isTokC = [] → lexAux s acc [] = []) ∧
+    (s.dropWhile isTokC ≠ [] → lexAux s acc [] = (acc.reverse ++ s.takeWhile isTokC, .token) :: lexAux (s.dropWhile isTokC) [] []) := by
+  induction s with
+  | nil => intro acc _; simp [lexAux]
+  | cons c cs ih =>
+    intro acc hacc
+    have hne : acc.isEmpty = false := by cases acc <;> simp_all
+    rcases char_cases c with rfl | rfl | hc | hc
+    · have : isTokC '(' = false := by decide
+      simp [List.dropWhile, List.takeWhile, this, lexAux_lrb, hne]
+    · have : isTokC ')' = false := by decide
+      simp [List.dropWhile, List.takeWhile, this, lexAux_rrb, hne]
+    · have : isTokC c = false := by simp [isTokC, isWsC] at *; simp [hc]
+      simp only [isWsC] at hc
+      simp [List.dropWhile, List.takeWhile, this, lexAux_space c cs _ _ hc, hne]
+    · have := ih (c :: acc) (by simp)
+      simp only [List.dropWhile, List.takeWhile, hc, lexAux_tokc c cs _ _ hc]
+      simpa using this
+
+theorem lexAux_wsrun (s : Str) : ∀ (acc : Str), acc ≠ [] →
+    (s.dropWhile isWsC = [] → lexAux s [] acc = []) ∧
+    (s.dropWhile isWsC ≠ [] → lexAux s [] acc = (acc.reverse ++ s.takeWhile isWsC, .ws) :: lexAux (s.dropWhile isWsC) [] []) := by
+  induction s with
+  | nil => intro acc _; simp [lexAux]
+  | cons c cs ih =>
+    intro acc hacc
+    have hne : acc.isEmpty = false := by cases acc <;> simp_all
+    rcases char_cases c with rfl | rfl | hc | hc
+    · have : isWsC '(' = false := by decide
+      simp [List.dropWhile, List.takeWhile, this, lexAux_lrb, hne]
+    · have : isWsC ')' = false := by decide
+      simp [List.dropWhile, List.takeWhile, this, lexAux_rrb, hne]
+    · have := ih (c :: acc) (by simp)
+      have hc' : pyIsSpace c = true := hc
+      simp only [List.dropWhile, List.takeWhile, hc, lexAux_space c cs _ _ hc']
+      simpa using this
+    · have hw := isTokC_not_ws c hc
+      simp [List.dropWhile, List.takeWhile, hw, lexAux_tokc c cs _ _ hc, hne]
+
+/-- a token run at the start of the text: emitted iff something follows it -/
+theorem lex_tok (c : Char) (cs : Str) (hc : isTokC c = true) :
+    ((c :: cs).dropWhile isTokC = [] → bracketLex (c :: cs) = []) ∧
+    ((c :: cs).dropWhile isTokC ≠ [] → bracketLex (c :: cs) =
+        ((c :: cs).takeWhile isTokC, .token) :: bracketLex ((c :: cs).dropWhile isTokC)) := by
+  have := lexAux_tokrun cs [c] (by simp)
+  simp only [bracketLex, lexAux_tokc c cs _ _ hc, List.dropWhile, List.takeWhile, hc]
+  simpa using this
+
+theorem lex_ws (c : Char) (cs : Str) (hc : isWsC c = true) :
+    (skipWs (c :: cs) = [] → bracketLex (c :: cs) = []) ∧
+    (skipWs (c :: cs) ≠ [] → bracketLex (c :: cs) =
+        ((c :: cs).takeWhile isWsC, .ws) :: bracketLex (skipWs (c :: cs))) := by
+  have := lexAux_wsrun cs [c] (by simp)
+  have hc' : pyIsSpace c = true := hc
+  simp only [bracketLex, skipWs, lexAux_space c cs _ _ hc', List.dropWhile, List.takeWhile, hc]
+  simpa using this
+
+
+/-! ### running the automaton over lexer output -/
+
+theorem skipWs_cons_ws (c : Char) (cs : Str) (h : isWsC c = true) : skipWs (c :: cs) = skipWs cs := by
+  simp [skipWs, List.dropWhile, h]
+
+theorem skipWs_cons_not (c : Char) (cs : Str) (h : isWsC c = false) : skipWs (c :: cs) = c :: cs := by
+  simp [skipWs, List.dropWhile, h]
+
+theorem skipWs_nil : skipWs [] = [] := rfl
+
+theorem skipWs_length_le (s : Str) : (skipWs s).length ≤ s.length := dropWhile_length_le _ _
+
+theorem skipWs_length_lt (c : Char) (cs : Str) (h : isWsC c = true) : (skipWs (c :: cs)).length < (c :: cs).length := by
+  rw [skipWs_cons_ws c cs h]; have := skipWs_length_le cs; simp; omega
+
+theorem skipWs_head (s : Str) (c : Char) (cs : Str) (h : skipWs s = c :: cs) : isWsC c = false :=
+  dropWhile_head_false _ _ _ _ h
+
+theorem skipWs_idem (s : Str) : skipWs (skipWs s) = skipWs s := by
+  cases h : skipWs s with
+  | nil => rfl
+  | cons c cs => exact skipWs_cons_not c cs (skipWs_head s c cs h)
+
+theorem isWsC_lrb : isWsC '(' = false := by decide
+theorem isWsC_rrb : isWsC ')' = false := by decide
+theorem isTokC_lrb : isTokC '(' = false := by decide
+theorem isTokC_rrb : isTokC ')' = false := by decide
+
+theorem lex_of_skipWs_nil (s : Str) (h : skipWs s = []) : bracketLex s = [] := by
+  cases s with
+  | nil => rfl
+  | cons c cs =>
+    by_cases hc : isWsC c = true
+    · exact (lex_ws c cs hc).1 h
+    · rw [skipWs_cons_not c cs (by simpa using hc)] at h; cases h
+
+section run
+variable (o : InOpts) (st : BrState)
+
+theorem run_ws_neutral (w : Str) (rest : List (Str × LexClass)) (hs : st.state ≠ 2) :
+    brRun o st ((w, .ws) :: rest) = brRun o st rest :=
+  brRun_none o st st _ rest (step_ws_other o st w hs)
+
+theorem run_skipWs (hs : st.state ≠ 2) (s : Str) (h : skipWs s ≠ []) :
+    brRun o st (bracketLex s) = brRun o st (bracketLex (skipWs s)) := by
+  cases s with
+  | nil => exact absurd rfl h
+  | cons c cs =>
+    by_cases hc : isWsC c = true
+    · rw [(lex_ws c cs hc).2 h, run_ws_neutral o st _ _ hs]
+    · rw [skipWs_cons_not c cs (by simpa using hc)]
+
+theorem run_skipWs_nil (hl : st.level ≠ 0) (s : Str) (h : skipWs s = []) :
+    ∃ e, brRun o st (bracketLex s) = .error e :=
+  ⟨_, by rw [lex_of_skipWs_nil s h]; exact brRun_nil_err o st hl⟩
+
+theorem run_skipWs_2 (hs : st.state = 2) (c : Char) (cs : Str) (hc : isWsC c = true) (h : skipWs (c :: cs) ≠ []) :
+    brRun o st (bracketLex (c :: cs)) = brRun o { st with state := 3 } (bracketLex (skipWs (c :: cs))) := by
+  rw [(lex_ws c cs hc).2 h]
+  exact brRun_none o st _ _ _ (step_ws_2 o st _ hs)
+
+/-- if two states react identically to the next token, the runs agree -/
+theorem run_congr (st' : BrState) (tok : Str × LexClass) (rest : List (Str × LexClass))
+    (h : brStep o st tok = brStep o st' tok) (hc : st.cnt = st'.cnt) :
+    brRun o st (tok :: rest) = brRun o st' (tok :: rest) := by
+  simp [brRun, h, hc]
+
+/-- a token character where the automaton accepts no token: error (either at the token or at the end of input) -/
+theorem run_tok_err (hs : st.state = 2 ∨ st.state = 4 ∨ st.state = 5) (hl : st.level ≠ 0) (c : Char) (cs : Str) (hc : isTokC c = true) :
+    ∃ e, brRun o st (bracketLex (c :: cs)) = .error e := by
+  by_cases h : (c :: cs).dropWhile isTokC = []
+  · exact ⟨_, by rw [(lex_tok c cs hc).1 h]; exact brRun_nil_err o st hl⟩
+  · exact ⟨_, by rw [(lex_tok c cs hc).2 h]; exact brRun_err o st _ _ _ (step_token_245 o st _ hs)⟩
+
+end run
+
+
+/-! ### simulation of the grammar by the automaton -/
+
+/-- the part of a node after its "(": the automaton ends in front of the closing ")" with the node `x` on top of the stack -/
+def BodyPost (o : InOpts) (st : BrState) (q : List QNode) (r : Str) : Option (Tree × Str × Nat) → Prop
+  | some (t, rest, cnt') => ∃ (x : QNode) (s' : Nat), x.toTree = t ∧ (s' = 4 ∨ s' = 5) ∧ rest.length < r.length ∧
+      brRun o st (bracketLex r) = brRun o { st with state := s', queue := q ++ [x], termCnt := cnt' } (bracketLex (')' :: rest))
+  | none => ∃ e, brRun o st (bracketLex r) = .error e
+
+def BodySpec (o : InOpts) (f : Nat) : Prop :=
+  ∀ (root : Bool) (r : Str) (cnt : Nat) (st : BrState) (q : List QNode) (L : Nat),
+    2 * r.length + 3 ≤ f → st.state = (if root then 9 else 1) → st.queue = q ++ [({} : QNode)] → st.level = L + 1 → st.termCnt = cnt →
+    BodyPost o st q r (spNode o.emptyPos root f ('(' :: r) cnt)
+
+/-- a complete inner node: attached to its parent `p`, state 5 -/
+def NodePost (o : InOpts) (st : BrState) (q : List QNode) (p : QNode) (r : Str) : Option (Tree × Str × Nat) → Prop
+  | some (t, rest, cnt') => rest.length < r.length + 1 ∧
+      brRun o st (bracketLex ('(' :: r)) =
+        brRun o { st with state := 5, queue := q ++ [{ p with kids := p.kids ++ [t] }], termCnt := cnt' } (bracketLex rest)
+  | none => ∃ e, brRun o st (bracketLex ('(' :: r)) = .error e
+
+def NodeSpec (o : InOpts) (f : Nat) : Prop :=
+  ∀ (r : Str) (cnt : Nat) (st : BrState) (q : List QNode) (p : QNode) (L : Nat),
+    2 * r.length + 3 ≤ f → (st.state = 2 ∨ st.state = 3 ∨ st.state = 5) → st.queue = q ++ [p] → st.level = L + 1 → st.termCnt = cnt →
+    NodePost o st q p r (spNode o.emptyPos false f ('(' :: r) cnt)
+
+/-- the children of `p` up to (not including) the closing ")" of `p` -/
+def KidsPost (o : InOpts) (st : BrState) (q : List QNode) (p : QNode) (s : Str) (acc : List Tree) :
+    Option (List Tree × Str × Nat) → Prop
+  | some (ks, rest, cnt') => ∃ new, ks = acc.reverse ++ new ∧ (st.state ≠ 5 → new ≠ []) ∧ rest.length < s.length ∧
+      brRun o st (bracketLex s) =
+        brRun o { st with state := 5, queue := q ++ [{ p with kids := p.kids ++ new }], termCnt := cnt' } (bracketLex (')' :: rest))
+  | none => ∃ e, brRun o st (bracketLex s) = .error e
+
+def KidsSpec (o : InOpts) (f : Nat) : Prop :=
+  ∀ (s : Str) (cnt : Nat) (acc : List Tree) (st : BrState) (q : List QNode) (p : QNode) (L : Nat),
+    2 * s.length + 2 ≤ f → (st.state = 5 ∨ ((st.state = 2 ∨ st.state = 3) ∧ ∃ r', skipWs s = '(' :: r')) →
+    st.queue = q ++ [p] → st.level = L + 1 → st.termCnt = cnt →
+    KidsPost o st q p s acc (spKids o.emptyPos f s cnt acc)
+
+theorem node_of_body (o : InOpts) (f : Nat) (B : BodySpec o f) : NodeSpec o f := by
+  intro r cnt st q p L hf hs hq hl hc
+  obtain ⟨state, level, queue, termCnt, cnt0, out⟩ := st
+  simp only at hs hq hl hc
+  subst hq hl hc
+  have h1 : brRun o ⟨state, L + 1, q ++ [p], termCnt, cnt0, out⟩ (bracketLex ('(' :: r)) =
+      brRun o ⟨1, L + 2, q ++ [p] ++ [({} : QNode)], termCnt, cnt0, out⟩ (bracketLex r) := by
+    rw [lex_lrb]
+    exact brRun_none o _ _ _ _ (by rw [step_lrb_235 o _ _ hs])
+  have hB := B false r termCnt ⟨1, L + 2, q ++ [p] ++ [({} : QNode)], termCnt, cnt0, out⟩ (q ++ [p]) (L + 1) hf rfl rfl rfl rfl
+  cases hsp : spNode o.emptyPos false f ('(' :: r) termCnt with
+  | none =>
+    rw [hsp] at hB
+    obtain ⟨e, he⟩ := hB
+    exact ⟨e, by rw [h1, he]⟩
+  | some v =>
+    obtain ⟨t, rest, cnt'⟩ := v
+    rw [hsp] at hB
+    obtain ⟨x, s', hx, hs', hlen, hrun⟩ := hB
+    refine ⟨by omega, ?_⟩
+    rw [h1, hrun, lex_rrb]
+    refine (brRun_none o _ _ _ _ ?_)
+    rw [step_rrb_close o _ _ hs' q p x L rfl rfl, hx]
+
+theorem kids_step (o : InOpts) (f : Nat) (N : NodeSpec o f) (K : KidsSpec o f) : KidsSpec o (f + 1) := by
+  intro s cnt acc st q p L hf hs hq hl hc
+  obtain ⟨state, level, queue, termCnt, cnt0, out⟩ := st
+  simp only at hs hq hl hc
+  subst hq hl hc
+  have hlev : (BrState.mk state (L + 1) (q ++ [p]) termCnt cnt0 out).level ≠ 0 := by simp
+  -- whitespace in front of the next child
+  cases hsk : skipWs s with
+  | nil =>
+    have : spKids o.emptyPos (f + 1) s termCnt acc = none := by simp [spKids, hsk]
+    rw [this]
+    exact run_skipWs_nil o _ hlev s hsk
+  | cons c cs =>
+    have hcw := skipWs_head s c cs hsk
+    have hlen := skipWs_length_le s
+    rw [hsk] at hlen
+    simp only [List.length_cons] at hlen
+    rcases char_cases c with rfl | rfl | hcc | hcc
+    · -- a child
+      -- the state in front of the child
+      obtain ⟨state', hs', hrun⟩ : ∃ state', (state' = 2 ∨ state' = 3 ∨ state' = 5) ∧
+          brRun o ⟨state, L + 1, q ++ [p], termCnt, cnt0, out⟩ (bracketLex s) =
+          brRun o ⟨state', L + 1, q ++ [p], termCnt, cnt0, out⟩ (bracketLex ('(' :: cs)) := by
+        by_cases h2 : state = 2
+        · subst h2
+          cases s with
+          | nil => cases hsk
+          | cons d ds =>
+            by_cases hd : isWsC d = true
+            · refine ⟨3, by simp, ?_⟩
+              rw [run_skipWs_2 o _ rfl d ds hd (by rw [hsk]; simp), hsk]
+            · rw [skipWs_cons_not d ds (by simpa using hd)] at hsk
+              exact ⟨2, by simp, by rw [hsk]⟩
+        · refine ⟨state, ?_, ?_⟩
+          · rcases hs with h | ⟨h | h, _⟩ <;> simp [h]
+          · rw [run_skipWs o _ h2 s (by rw [hsk]; simp), hsk]
+      have hN := N cs termCnt ⟨state', L + 1, q ++ [p], termCnt, cnt0, out⟩ q p L (by omega) hs' rfl rfl rfl
+      cases hsp : spNode o.emptyPos false f ('(' :: cs) termCnt with
+      | none =>
+        have : spKids o.emptyPos (f + 1) s termCnt acc = none := by simp [spKids, hsk, hsp]
+        rw [this]
+        rw [hsp] at hN
+        obtain ⟨e, he⟩ := hN
+        exact ⟨e, by rw [hrun, he]⟩
+      | some v =>
+        obtain ⟨k, rest, cnt'⟩ := v
+        have : spKids o.emptyPos (f + 1) s termCnt acc = spKids o.emptyPos f rest cnt' (k :: acc) := by
+          simp [spKids, hsk, hsp]
+        rw [this]
+        rw [hsp] at hN
+        obtain ⟨hlen', hrunN⟩ := hN
+        have hK := K rest cnt' (k :: acc) ⟨5, L + 1, q ++ [{ p with kids := p.kids ++ [k] }], cnt', cnt0, out⟩ q
+          { p with kids := p.kids ++ [k] } L (by omega) (.inl rfl) rfl rfl rfl
+        cases hsk2 : spKids o.emptyPos f rest cnt' (k :: acc) with
+        | none =>
+          rw [hsk2] at hK
+          obtain ⟨e, he⟩ := hK
+          exact ⟨e, by rw [hrun, hrunN, he]⟩
+        | some v2 =>
+          obtain ⟨ks, rest2, cnt2⟩ := v2
+          rw [hsk2] at hK
+          obtain ⟨new, hks, _, hlen2, hrunK⟩ := hK
+          refine ⟨k :: new, by simp [hks], by simp, by omega, ?_⟩
+          rw [hrun, hrunN, hrunK]
+          simp
+    · -- the closing parenthesis of the parent
+      have : spKids o.emptyPos (f + 1) s termCnt acc = some (acc.reverse, cs, termCnt) := by simp [spKids, hsk]
+      rw [this]
+      have h5 : state = 5 := by
+        rcases hs with h | ⟨_, r', hr'⟩
+        · exact h
+        · rw [hsk] at hr'; cases hr'
+      subst h5
+      refine ⟨[], by simp, by simp, by omega, ?_⟩
+      rw [run_skipWs o _ (by simp) s (by rw [hsk]; simp), hsk]
+      simp
+    · rw [hcw] at hcc; cases hcc
+    · -- a token where a child or ")" is expected
+      have : spKids o.emptyPos (f + 1) s termCnt acc = none := by
+        obtain ⟨_, h1, h2⟩ := (isTokC_iff c).1 hcc
+        simp only [spKids, hsk]
+        split
+        · rename_i heq; cases heq; exact absurd rfl h2
+        · rename_i heq; cases heq; exact absurd rfl h1
+        · rfl
+      rw [this]
+      have h5 : state = 5 := by
+        rcases hs with h | ⟨_, r', hr'⟩
+        · exact h
+        · rw [hsk] at hr'; cases hr'; rw [isTokC_lrb] at hcc; cases hcc
+      subst h5
+      obtain ⟨e, he⟩ := run_tok_err o ⟨5, L + 1, q ++ [p], termCnt, cnt0, out⟩ (by simp) hlev c cs hcc
+      exact ⟨e, by rw [run_skipWs o _ (by simp) s (by rw [hsk]; simp), hsk, he]⟩
+
+/-- `BodyPost` with the run made explicit (so that it can be rewritten step by step) -/
+def TailPost (o : InOpts) (run : Except Err (List (Nat × Tree))) (L : Nat) (q : List QNode) (cnt0 : Nat) (out : List (Nat × Tree))
+    (n : Nat) : Option (Tree × Str × Nat) → Prop
+  | some (t, rest, cnt') => ∃ (x : QNode) (s' : Nat), x.toTree = t ∧ (s' = 4 ∨ s' = 5) ∧ rest.length < n ∧
+      run = brRun o ⟨s', L + 1, q ++ [x], cnt', cnt0, out⟩ (bracketLex (')' :: rest))
+  | none => ∃ e, run = .error e
+
+theorem TailPost.mono {o run L q cnt0 out n n' res} (h : TailPost o run L q cnt0 out n res) (hn : n ≤ n') :
+    TailPost o run L q cnt0 out n' res := by
+  cases res with
+  | none => exact h
+  | some v =>
+    obtain ⟨t, rest, cnt'⟩ := v
+    obtain ⟨x, s', h1, h2, h3, h4⟩ := h
+    exact ⟨x, s', h1, h2, by omega, h4⟩
+
+/-- children of a constituent whose label has been read (state 2 or 3, next character "(") -/
+theorem tail_kids (o : InOpts) (f : Nat) (K : KidsSpec o f) (s2 L : Nat) (q : List QNode) (F : Fields) (termCnt cnt0 : Nat)
+    (out : List (Nat × Tree)) (tl : Str) (hs2 : s2 = 2 ∨ s2 = 3) (hf : 2 * (tl.length + 1) + 2 ≤ f) :
+    TailPost o (brRun o ⟨s2, L + 1, q ++ [{ f := F }], termCnt, cnt0, out⟩ (bracketLex ('(' :: tl))) L q cnt0 out (tl.length + 1)
+      (match spKids o.emptyPos f ('(' :: tl) termCnt [] with
+        | some (ks, rest, cnt') => if ks.isEmpty = true then none else some (node F ks, rest, cnt')
+        | none => none) := by
+  have hK := K ('(' :: tl) termCnt [] ⟨s2, L + 1, q ++ [{ f := F }], termCnt, cnt0, out⟩ q { f := F } L (by simpa using hf)
+    (.inr ⟨hs2, tl, skipWs_cons_not _ _ isWsC_lrb⟩) rfl rfl rfl
+  cases hsp : spKids o.emptyPos f ('(' :: tl) termCnt [] with
+  | none =>
+    rw [hsp] at hK
+    exact hK
+  | some v =>
+    obtain ⟨ks, rest, cnt'⟩ := v
+    rw [hsp] at hK
+    obtain ⟨new, hks, hne, hlen, hrun⟩ := hK
+    have hne' : new ≠ [] := hne (by rcases hs2 with rfl | rfl <;> simp)
+    have : ks.isEmpty = false := by cases new <;> simp_all
+    simp only [this]
+    refine ⟨{ f := F, kids := new }, 5, ?_, .inr rfl, by simpa using hlen, ?_⟩
+    · simp [QNode.toTree, hks]
+    · rw [hrun]; simp
+
+/-- the word of a token whose label has been read (state 3) -/
+theorem tail_word (o : InOpts) (L : Nat) (q : List QNode) (F : Fields) (termCnt cnt0 : Nat)
+    (out : List (Nat × Tree)) (c : Char) (tl : Str) (hc : isTokC c = true) :
+    TailPost o (brRun o ⟨3, L + 1, q ++ [{ f := F }], termCnt, cnt0, out⟩ (bracketLex (c :: tl))) L q cnt0 out (tl.length + 1)
+      (match skipWs ((c :: tl).dropWhile isTokC) with
+        | ')' :: r4 => some (leaf termCnt { F with word := some ((c :: tl).takeWhile isTokC) }, r4, termCnt + 1)
+        | _ => none) := by
+  have hdl := dropWhile_length_le isTokC tl
+  by_cases h4 : (c :: tl).dropWhile isTokC = []
+  · rw [h4, (lex_tok c tl hc).1 h4]
+    exact ⟨_, brRun_nil_err o _ (by simp)⟩
+  · rw [(lex_tok c tl hc).2 h4, brRun_none o _ _ _ _ (step_token_3 o _ _ rfl)]
+    simp only [updLast_snoc]
+    have hlen4 : ((c :: tl).dropWhile isTokC).length ≤ tl.length := by simpa [List.dropWhile, hc] using hdl
+    generalize (c :: tl).dropWhile isTokC = r4 at *
+    generalize (c :: tl).takeWhile isTokC = word at *
+    cases hr5 : skipWs r4 with
+    | nil => exact run_skipWs_nil o _ (by simp) r4 hr5
+    | cons g gs =>
+      have hlen5 := skipWs_length_le r4
+      rw [hr5] at hlen5
+      rw [run_skipWs o _ (by simp) r4 (by rw [hr5]; simp), hr5]
+      rcases char_cases g with rfl | rfl | hgc | hgc
+      · exact ⟨_, by rw [lex_lrb]; exact brRun_err o _ _ _ _ (step_lrb_14 o _ _ (.inr rfl))⟩
+      · refine ⟨{ f := { F with word := some word }, num := some termCnt }, 4, by simp [QNode.toTree], .inl rfl, ?_, rfl⟩
+        simp at hlen5; omega
+      · rw [skipWs_head r4 g gs hr5] at hgc; cases hgc
+      · split
+        · rename_i heq; cases heq; rw [isTokC_rrb] at hgc; cases hgc
+        · exact run_tok_err o _ (by simp) (by simp) g gs hgc
+
+theorem bodyPost_of_tail (o : InOpts) (s L : Nat) (qu q : List QNode) (termCnt cnt0 : Nat) (out : List (Nat × Tree)) (r : Str) (res)
+    (h : TailPost o (brRun o ⟨s, L + 1, qu, termCnt, cnt0, out⟩ (bracketLex r)) L q cnt0 out r.length res) :
+    BodyPost o ⟨s, L + 1, qu, termCnt, cnt0, out⟩ q r res := by
+  cases res with
+  | none => exact h
+  | some v => exact h
+
+theorem body_step (o : InOpts) (hg : o.gfSplit = false) (f : Nat) (K : KidsSpec o f) : BodySpec o (f + 1) := by
+  intro root r cnt st q L hf hs hq hl hc
+  obtain ⟨state, level, queue, termCnt, cnt0, out⟩ := st
+  simp only at hs hq hl hc
+  subst hs hq hl hc
+  apply bodyPost_of_tail
+  generalize hres : spNode o.emptyPos root (f + 1) ('(' :: r) termCnt = res
+  simp only [spNode, drop_takeWhile_length] at hres
+  have hst12 : (if root = true then 9 else 1) ≠ 2 := by cases root <;> simp
+  cases hr1 : skipWs r with
+  | nil =>
+    have : res = none := by rw [← hres]; cases root <;> simp [hr1, skipWs_nil]
+    subst this
+    exact run_skipWs_nil o _ (by simp) r hr1
+  | cons c cs =>
+    rw [run_skipWs o ⟨if root then 9 else 1, L + 1, q ++ [({} : QNode)], termCnt, cnt0, out⟩ hst12 r (by rw [hr1]; simp)]
+    rw [hr1] at hres ⊢
+    have hlen1 := skipWs_length_le r
+    rw [hr1] at hlen1
+    simp only [List.length_cons] at hlen1
+    rcases char_cases c with rfl | rfl | hcc | hcc
+    · -- "(" directly after "(": only the root may have no label
+      simp only [List.takeWhile, List.dropWhile, isTokC_lrb, skipWs_cons_not _ _ isWsC_lrb] at hres
+      cases root with
+      | false =>
+        have : res = none := by rw [← hres]; simp
+        subst this
+        exact ⟨_, by rw [lex_lrb]; exact brRun_err o _ _ _ _ (step_lrb_14 o _ _ (.inl rfl))⟩
+      | true =>
+        simp only [List.isEmpty_nil, Bool.not_true, Bool.and_false, Bool.false_eq_true, if_false, if_true] at hres
+        subst hres
+        rw [lex_lrb, run_congr o _ _ _ _ (step_lrb_9 o _ _ rfl) rfl]
+        simp only [updLast_snoc]
+        rw [← lex_lrb]
+        exact (tail_kids o f K 2 L q { label := DEFAULT_ROOT } termCnt cnt0 out cs (.inl rfl) (by omega)).mono (by omega)
+    · -- ")" directly after "("
+      have : res = none := by
+        rw [← hres]; cases root <;> simp [List.takeWhile, List.dropWhile, isTokC_rrb]
+      subst this
+      exact ⟨_, by rw [lex_rrb]; exact brRun_err o _ _ _ _ (step_rrb_139 o _ _ (by cases root <;> simp))⟩
+    · rw [skipWs_head r c cs hr1] at hcc; cases hcc
+    · -- the label
+      have hlab : ((c :: cs).takeWhile isTokC).isEmpty = false := by simp [List.takeWhile, hcc]
+      simp only [hlab, Bool.false_and, Bool.false_eq_true, if_false, Bool.not_false, Bool.and_true] at hres
+      by_cases h2 : (c :: cs).dropWhile isTokC = []
+      · have : res = none := by rw [← hres, h2]; simp [skipWs_nil]
+        subst this
+        exact ⟨_, by rw [(lex_tok c cs hcc).1 h2]; exact brRun_nil_err o _ (by simp)⟩
+      · rw [(lex_tok c cs hcc).2 h2, brRun_none o _ _ _ _ (step_token_19 o _ _ (by cases root <;> simp) hg)]
+        simp only [updLast_snoc]
+        have hlen2 : ((c :: cs).dropWhile isTokC).length ≤ cs.length := by
+          simpa [List.dropWhile, hcc] using dropWhile_length_le isTokC cs
+        generalize (c :: cs).takeWhile isTokC = label at *
+        cases hr2 : (c :: cs).dropWhile isTokC with
+        | nil => exact absurd hr2 h2
+        | cons d ds =>
+          have hdt := dropWhile_head_false _ _ _ _ hr2
+          rw [hr2] at hres hlen2
+          simp only [List.length_cons] at hlen2
+          clear h2 hr2
+          rcases char_cases d with rfl | rfl | hdc | hdc
+          · -- "(label(" : a constituent
+            simp only [skipWs_cons_not _ _ isWsC_lrb] at hres
+            subst hres
+            exact (tail_kids o f K 2 L q _ termCnt cnt0 out ds (.inl rfl) (by omega)).mono (by omega)
+          · -- "(label)" : empty POS
+            simp only at hres
+            cases hep : o.emptyPos with
+            | false =>
+              have : res = none := by rw [← hres]; simp [hep]
+              subst this
+              exact ⟨_, by rw [lex_rrb]; exact brRun_err o _ _ _ _ (step_rrb_2_noEmpty o _ _ rfl hep)⟩
+            | true =>
+              have : res = some (leaf termCnt { label := DEFAULT_LABEL, word := some label, morph := some DEFAULT_MORPH, edge := some DEFAULT_EDGE }, ds, termCnt + 1) := by
+                rw [← hres]; simp [hep]
+              subst this
+              refine ⟨{ f := { label := DEFAULT_LABEL, word := some label, morph := some DEFAULT_MORPH, edge := some DEFAULT_EDGE }, num := some termCnt }, 4,
+                by simp [QNode.toTree], .inl rfl, by omega, ?_⟩
+              rw [lex_rrb, run_congr o _ _ _ _ (step_rrb_2_empty o _ _ rfl hep) rfl]
+              simp only [updLast_snoc]
+          · -- whitespace after the label
+            have hnr : ∀ r3, d :: ds ≠ ')' :: r3 := by
+              intro r3 h; cases h; rw [isWsC_rrb] at hdc; cases hdc
+            have hlt := skipWs_length_lt d ds hdc
+            split at hres
+            · rename_i heq; exact absurd heq (hnr _)
+            cases hr3 : skipWs (d :: ds) with
+            | nil =>
+              have : res = none := by rw [← hres]; simp [hr3]
+              subst this
+              exact run_skipWs_nil o _ (by simp) _ hr3
+            | cons e es =>
+              rw [run_skipWs_2 o _ rfl d ds hdc (by rw [hr3]; simp)]
+              rw [hr3] at hlt hres ⊢
+              have hdec : decide ((e :: es).length < (d :: ds).length) = true := by simpa using hlt
+              simp only [List.length_cons] at hlt
+              simp only [hdec, Bool.true_and] at hres
+              rcases char_cases e with rfl | rfl | hec | hec
+              · simp only at hres
+                subst hres
+                exact (tail_kids o f K 3 L q _ termCnt cnt0 out es (.inr rfl) (by omega)).mono (by omega)
+              · have : res = none := by rw [← hres]; simp [isTokC_rrb]
+                subst this
+                exact ⟨_, by rw [lex_rrb]; exact brRun_err o _ _ _ _ (step_rrb_139 o _ _ (.inr (.inl rfl)))⟩
+              · rw [skipWs_head _ e es hr3] at hec; cases hec
+              · split at hres
+                · rename_i heq; cases heq; rw [isTokC_lrb] at hec; cases hec
+                · rename_i heq; cases heq
+                  simp only [hec, if_true] at hres
+                  subst hres
+                  exact (tail_word o L q { label := label, morph := some DEFAULT_MORPH, edge := some DEFAULT_EDGE } termCnt cnt0 out _ _ hec).mono (by omega)
+                · rename_i heq; cases heq
+          · rw [hdt] at hdc; cases hdc
+
+theorem sim_all (o : InOpts) (hg : o.gfSplit = false) : ∀ f, BodySpec o f ∧ KidsSpec o f := by
+  intro f
+  induction f with
+  | zero =>
+    constructor
+    · intro root r cnt st q L hf; omega
+    · intro s cnt acc st q p L hf; omega
+  | succ f ih =>
+    exact ⟨body_step o hg f ih.2, kids_step o f (node_of_body o f ih.1) ih.2⟩
+
+/-- one complete group at top level: the tree is delivered with the current sentence id -/
+theorem root_group (o : InOpts) (hg : o.gfSplit = false) (hr : o.replaceParens = false) (f : Nat) (r : Str) (cnt0 : Nat)
+    (out : List (Nat × Tree)) (hf : 2 * r.length + 3 ≤ f) :
+    match spNode o.emptyPos true f ('(' :: r) 1 with
+    | some (t, rest, _) => rest.length < r.length + 1 ∧
+        brRun o ⟨0, 0, [], 1, cnt0, out⟩ (bracketLex ('(' :: r)) = brRun o ⟨0, 0, [], 1, cnt0 + 1, (cnt0, t) :: out⟩ (bracketLex rest)
+    | none => ∃ e, brRun o ⟨0, 0, [], 1, cnt0, out⟩ (bracketLex ('(' :: r)) = .error e := by
+  have h1 : brRun o ⟨0, 0, [], 1, cnt0, out⟩ (bracketLex ('(' :: r)) =
+      brRun o ⟨9, 1, [] ++ [({} : QNode)], 1, cnt0, out⟩ (bracketLex r) := by
+    rw [lex_lrb]
+    exact brRun_none o _ _ _ _ (by rw [step_lrb_0 o _ _ rfl])
+  have hB := (sim_all o hg f).1 true r 1 ⟨9, 1, [] ++ [({} : QNode)], 1, cnt0, out⟩ [] 0 hf rfl rfl rfl rfl
+  cases hsp : spNode o.emptyPos true f ('(' :: r) 1 with
+  | none =>
+    rw [hsp] at hB
+    obtain ⟨e, he⟩ := hB
+    exact ⟨e, by rw [h1, he]⟩
+  | some v =>
+    obtain ⟨t, rest, cnt'⟩ := v
+    rw [hsp] at hB
+    obtain ⟨x, s', hx, hs', hlen, hrun⟩ := hB
+    refine ⟨by omega, ?_⟩
+    rw [h1, hrun, lex_rrb]
+    rw [brRun_some o _ _ _ _ _ (step_rrb_yield o _ _ hs' x rfl rfl hr), hx]
+
+/-! ### junk between groups (state 0) -/
+
+theorem run0_tok (o : InOpts) (st : BrState) (h0 : st.state = 0) (tok : Str) (rest : List (Str × LexClass)) :
+    brRun o st ((if tok.isEmpty then [] else [(tok.reverse, LexClass.token)]) ++ rest) = brRun o st rest := by
+  split
+  · rfl
+  · exact brRun_none o st st _ _ (step_token_0 o st _ h0)
+
+theorem run0_ws (o : InOpts) (st : BrState) (h0 : st.state = 0) (ws : Str) (rest : List (Str × LexClass)) :
+    brRun o st ((if ws.isEmpty then [] else [(ws.reverse, LexClass.ws)]) ++ rest) = brRun o st rest := by
+  split
+  · rfl
+  · exact brRun_none o st st _ _ (step_ws_other o st _ (by simp [h0]))
+
+theorem run0_buf (o : InOpts) (st : BrState) (h0 : st.state = 0) (s : Str) : ∀ (tok ws : Str),
+    brRun o st (lexAux s tok ws) = brRun o st (lexAux s [] []) := by
+  induction s with
+  | nil => intro tok ws; rfl
+  | cons c cs ih =>
+    intro tok ws
+    rcases char_cases c with rfl | rfl | hc | hc
+    · rw [lexAux_lrb, lexAux_lrb]
+      simp only [List.append_assoc]
+      rw [run0_tok o st h0, run0_ws o st h0]; rfl
+    · rw [lexAux_rrb, lexAux_rrb]
+      simp only [List.append_assoc]
+      rw [run0_tok o st h0, run0_ws o st h0]; rfl
+    · have hc' : pyIsSpace c = true := hc
+      rw [lexAux_space c cs _ _ hc', lexAux_space c cs _ _ hc', run0_tok o st h0, ih]
+      simp only [List.isEmpty_nil, if_true, List.nil_append]
+      rw [ih [] [c]]
+    · rw [lexAux_tokc c cs _ _ hc, lexAux_tokc c cs _ _ hc, run0_ws o st h0, ih]
+      simp only [List.isEmpty_nil, if_true, List.nil_append]
+      rw [ih [c] []]
+
+theorem run0_junk (o : InOpts) (st : BrState) (h0 : st.state = 0) (c : Char) (cs : Str) (hc : c ≠ '(') :
+    brRun o st (bracketLex (c :: cs)) = brRun o st (bracketLex cs) := by
+  rcases char_cases c with rfl | rfl | hcc | hcc
+  · exact absurd rfl hc
+  · rw [lex_rrb]; exact brRun_none o st st _ _ (step_rrb_0 o st _ h0)
+  · have hc' : pyIsSpace c = true := hcc
+    simp only [bracketLex]
+    rw [lexAux_space c cs _ _ hc', run0_tok o st h0, run0_buf o st h0]
+  · simp only [bracketLex]
+    rw [lexAux_tokc c cs _ _ hcc, run0_ws o st h0, run0_buf o st h0]
+
+/-- the whole text -/
+theorem groups_sim (o : InOpts) (hg : o.gfSplit = false) (hr : o.replaceParens = false) :
+    ∀ (fuel : Nat) (s : Str) (acc : List Tree) (cnt0 : Nat) (out : List (Nat × Tree)), s.length + 1 ≤ fuel →
+    match spGroups o.emptyPos fuel s acc with
+    | some ts => ∃ new, ts = acc.reverse ++ new ∧
+        brRun o ⟨0, 0, [], 1, cnt0, out⟩ (bracketLex s) = .ok (out.reverse ++ (List.range' cnt0 new.length).zip new)
+    | none => ∃ e, brRun o ⟨0, 0, [], 1, cnt0, out⟩ (bracketLex s) = .error e := by
+  intro fuel
+  induction fuel with
+  | zero => intro s acc cnt0 out h; omega
+  | succ fuel ih =>
+    intro s acc cnt0 out hf
+    cases s with
+    | nil =>
+      simp only [spGroups]
+      exact ⟨[], by simp, by simp [lex_nil, brRun]⟩
+    | cons c r =>
+      simp only [List.length_cons] at hf
+      by_cases hc : c = '('
+      · subst hc
+        simp only [spGroups]
+        have hR := root_group o hg hr (2 * r.length + 4) r cnt0 out (by omega)
+        cases hsp : spNode o.emptyPos true (2 * r.length + 4) ('(' :: r) 1 with
+        | none =>
+          rw [hsp] at hR
+          exact hR
+        | some v =>
+          obtain ⟨t, rest, cnt'⟩ := v
+          rw [hsp] at hR
+          obtain ⟨hlen, hrun⟩ := hR
+          have hI := ih rest (t :: acc) (cnt0 + 1) ((cnt0, t) :: out) (by omega)
+          simp only
+          cases hsg : spGroups o.emptyPos fuel rest (t :: acc) with
+          | none =>
+            rw [hsg] at hI
+            obtain ⟨e, he⟩ := hI
+            exact ⟨e, by rw [hrun, he]⟩
+          | some ts =>
+            rw [hsg] at hI
+            obtain ⟨new, hts, hrun2⟩ := hI
+            refine ⟨t :: new, by simp [hts], ?_⟩
+            rw [hrun, hrun2]
+            simp [List.range'_succ]
+      · have hsp : spGroups o.emptyPos (fuel + 1) (c :: r) acc = spGroups o.emptyPos fuel r acc := by
+          rw [spGroups]
+          intro h; exact hc h
+        rw [hsp, run0_junk o _ rfl c r hc]
+        exact ih r acc cnt0 out (by omega)
+
+/-! ### final form -/
+
+mutual
+theorem beq_refl : ∀ t : Tree, Tree.beq t t = true
+  | .leaf n f => by simp [Tree.beq]
+  | .node f ks => by simp [Tree.beq, beqL_refl ks]
+theorem beqL_refl : ∀ ts : List Tree, Tree.beqL ts ts = true
+  | [] => by simp [Tree.beqL]
+  | t :: ts => by simp [Tree.beqL, beq_refl t, beqL_refl ts]
+end
+
+theorem sameTree_refl (t : Tree) : sameTree t t = true := beq_refl _
+
+/-- the reader (without label-rewriting options and without the disco post-pass) against the grammar -/
+theorem readBrackets_spec (o : InOpts) (hg : o.gfSplit = false) (hr : o.replaceParens = false) (hd : o.disco = false) (text : Str) :
+    match specBrackets o.emptyPos text with
+    | some ts => readBrackets o text = .ok ((List.range' (o.firstId.getD 1) ts.length).zip ts)
+    | none => ∃ e, readBrackets o text = .error e := by
+  have hG := groups_sim o hg hr (2 * text.length + 2) text [] (o.firstId.getD 1) [] (by omega)
+  have hrd : readBrackets o text = brRun o ⟨0, 0, [], 1, o.firstId.getD 1, []⟩ (bracketLex text) := by
+    unfold readBrackets
+    exact brLoop_eq_brRun o hd _ _ _ (by omega)
+  unfold specBrackets
+  cases hsp : spGroups o.emptyPos (2 * text.length + 2) text [] with
+  | none =>
+    rw [hsp] at hG
+    obtain ⟨e, he⟩ := hG
+    exact ⟨e, by rw [hrd, he]⟩
+  | some ts =>
+    rw [hsp] at hG
+    obtain ⟨new, hts, hrun⟩ := hG
+    simp only [List.reverse_nil, List.nil_append] at hts hrun
+    subst hts
+    simp only
+    rw [hrd, hrun]
+
 end TT.Lemmas.Read
